@@ -95,3 +95,10 @@ package render
 //@   ensures @fresh pg.sink == nil && pg.extra == "" && pg.cacheMap != nil && fresh(pg.cacheMap) && all[string](k, !in(k, pg.cacheMap))
 //@   ensures @menu pg.menu != nil ==> len(pg.menu.menu) == 0 && !pg.menu.sink
 //@   ensures @cursors pg.sizer != nil ==> len(pg.sizer.crsrs) == 0
+
+// the notice shown in front of the next page (invalid input, failed load)
+//@ func (*Page).WithError
+//@   serves C07
+//@   requires pg != nil
+//@   modifies pg.err
+//@   ensures pg.err == err && result == pg
